@@ -35,7 +35,7 @@ OUTSIDE = ['in the */vectorised configurations: parameter combinations for which
 ASSUMPTIONS = ['concrete float constants within 1e-13 (relative) of a fraction with denominator <= 10^6 are read as that '
                'fraction (0.6 as 3/5, 6e-17 as 0): the generic unit vectors of the initial configurations are exact',
                'cos/sin are uninterpreted apart from cos^2+sin^2=1 (the identities claimed are polynomial in them)']
-SETTINGS = {'max_paths': 400, 'obligation_timeout_ms': 30000, 'tol': (1e-9, 8), 'snap_consts': 10 ** 6, 'fold_ground_apps': True}
+SETTINGS = {'strict_definedness': False, 'max_paths': 400, 'obligation_timeout_ms': 30000, 'tol': (1e-9, 8), 'snap_consts': 10 ** 6, 'fold_ground_apps': True}
 CFG_TIMEOUT = {'quick': 300, 'thorough': 1200}
 
 AP = odl.uniform_partition(0, 4, 4)
